@@ -105,6 +105,11 @@ def run(prop, tier, seed, replay=None):
 
     if replay:
         return do_replay(prop, replay)
+    rdir = os.path.join(core.VERIF, "replays")
+    if os.path.isdir(rdir):
+        for f in os.listdir(rdir):
+            if f.startswith(pid + "-"):
+                os.remove(os.path.join(rdir, f))
 
     # 1. translators
     for tr in prop.translators:
